@@ -425,11 +425,50 @@ impl World for C19 {
             (lo, hi)
         } else {
             let (lo, mut hi) = self.gen_ends(rng, c, inclusive, uniformity);
-            if pinned_slice && !c.kinds[..c.n].iter().any(|k| matches!(k, Kind::HwbW | Kind::HwbB)) && c.n > 1 {
-                let j = rng.below(c.n as u64) as usize;
-                hi[j] = lo[j];
+            let (mut lo, mut hi) = (lo, hi);
+            let is_hwb = c.kinds[..c.n].iter().any(|k| matches!(k, Kind::HwbW | Kind::HwbB));
+            if pinned_slice && c.n > 1 {
+                // which component is pinned, and where, rotates with the plan index instead of being drawn: the few
+                // slices a quick run can afford must not all land on the same component
+                let round = index / (ncases * UNIFORMITY_ARMS);
+                let turn = (round * 2 + (arm - 7) + index % ncases) as usize;
+                // HWB: whiteness alone cannot be pinned (it is not a coordinate of the shape); blackness can (v = 1 - b)
+                let pinnable: Vec<usize> = (0..c.n).filter(|j| c.kinds[*j] != Kind::HwbW).collect();
+                let j = pinnable[turn % pinnable.len()];
+                if (turn / pinnable.len()) % 2 == 1 && !is_hwb {
+                    // the usual request around a slice: everything else over its whole nominal range
+                    for k in 0..c.n {
+                        if k != j {
+                            lo[k] = rt(c, c.dom[k].0);
+                            hi[k] = rt(c, c.dom[k].1);
+                        }
+                    }
+                }
+                if c.kinds[j] == Kind::HwbB {
+                    // both ends get the low end's blackness; the high end keeps its saturation
+                    let jw = j - 1;
+                    let (s1, _) = hsv_of_hwb(hi[jw], hi[j]);
+                    let v0 = 1.0 - lo[j];
+                    hi[j] = lo[j];
+                    hi[jw] = rt(c, ((1.0 - s1) * v0).max(0.0));
+                } else {
+                    // at the low end, at the high end, or at the top of the component's nominal range (value 1,
+                    // lightness 1, saturation 1, alpha 1) — not at the bottom: at the apex the other coordinates mean nothing
+                    let at = match (turn / 2) % 3 {
+                        0 => lo[j],
+                        1 => hi[j],
+                        _ if is_hwb || c.kinds[j] == Kind::Hue => hi[j],
+                        _ => rt(c, c.dom[j].1),
+                    };
+                    lo[j] = at;
+                    hi[j] = at;
+                }
             }
-            if equal_mode > 0 && !c.kinds[..c.n].iter().any(|k| matches!(k, Kind::HwbW | Kind::HwbB)) {
+            let (lo, mut hi) = (lo, hi);
+            if equal_mode == 1 && is_hwb {
+                hi = lo;
+            }
+            if equal_mode > 0 && !is_hwb {
                 let keep = if equal_mode == 2 { Some(rng.below(c.n as u64) as usize) } else { None };
                 for j in 0..c.n {
                     if Some(j) != keep {
@@ -574,6 +613,8 @@ impl World for C19 {
                 "hwb-ends-swapped",
                 "range-outside-nominal-bounds",
                 "uniformity-case",
+                "uniformity-on-a-slice-of-the-shape",
+                "alpha-of-the-other-float-width",
             ],
             expected_faults: vec!["stuck-lo", "stuck-hi", "alternating", "scripted-extremes", "low-entropy", "counter"],
             time_note: "palette has no clock; simulated time is reported as steps_executed (= samples drawn)",
@@ -847,6 +888,9 @@ fn execute(c: &'static CaseDesc, plan: &Plan, ctx: &mut Ctx<'_>) {
     if plan.uniformity {
         ctx.probe("uniformity-case");
     }
+    if c.name.contains("other float") {
+        ctx.probe("alpha-of-the-other-float-width");
+    }
 
     let req = Request { dist, lo: plo, hi: phi, n: plan.samples as usize };
     let mut rng = SimRng::new(&plan.entropy);
@@ -870,11 +914,18 @@ fn execute(c: &'static CaseDesc, plan: &Plan, ctx: &mut Ctx<'_>) {
     let mut pending: Vec<Sample> = Vec::with_capacity(plan.samples as usize);
     // The sampler runs to completion under catch_unwind; samples are judged afterwards,
     // in order, against the end points it really received.
+    cases::FROM_CLONE.with(|n| n.set(0));
     let r = catch(|| {
         (c.run)(&req, &mut rng, &mut |s: Sample| {
             pending.push(s);
         })
     });
+    let from_clone = cases::FROM_CLONE.with(|n| n.get());
+    if from_clone > 0 {
+        // only on a palette whose samplers are `Clone` (they are not on the current tree)
+        ctx.probe("sampled-from-a-cloned-sampler");
+        ctx.extra("samples-drawn-from-a-cloned-sampler", from_clone);
+    }
     let ends: Ends = match r {
         Caught::Ok(e) => e,
         Caught::Injected(_) => {
@@ -995,7 +1046,17 @@ fn execute(c: &'static CaseDesc, plan: &Plan, ctx: &mut Ctx<'_>) {
     let fatal_shape = matches!(c.shape, "cone" | "bicone" | "hwb");
     if plan.uniformity && plan.entropy.is_fair() && drawn >= 1000 {
         // equal ends carry no distribution
-        let degenerate: Vec<bool> = (0..c.n).map(|j| !standard && judge.lo[j] == judge.hi[j] && !matches!(c.kinds[j], Kind::HwbW | Kind::HwbB)).collect();
+        let mut degenerate: Vec<bool> = (0..c.n).map(|j| !standard && judge.lo[j] == judge.hi[j] && !matches!(c.kinds[j], Kind::HwbW | Kind::HwbB)).collect();
+        if let (Some((jw, jb)), false) = (hwb, standard) {
+            // HWB: the coordinates of the shape are the equivalent saturation and value
+            let (s0, v0) = hsv_of_hwb(judge.lo[jw], judge.lo[jb]);
+            let (s1, v1) = hsv_of_hwb(judge.hi[jw], judge.hi[jb]);
+            degenerate[jw] = s0 == s1;
+            degenerate[jb] = v0 == v1;
+        }
+        if degenerate.iter().any(|d| *d) {
+            ctx.probe("uniformity-on-a-slice-of-the-shape");
+        }
         for j in 0..c.n {
             if degenerate[j] {
                 continue;
